@@ -102,7 +102,7 @@ fn main() {
             Some("fault") => {
                 let at = it.next().unwrap_or("");
                 let kind = it.next().unwrap_or("");
-                if at == "*" || at.parse::<usize>().ok() == Some(k) {
+                if at == "*" || at.parse::<usize>().ok() == Some(k) || at.strip_prefix("sub:").map(|n| n == sub).unwrap_or(false) {
                     fault = Some(kind.to_string());
                 }
             }
@@ -216,6 +216,22 @@ fn inject(kind: &str, args: &[OsString]) -> ! {
         ),
         "exit128_perm" => out_exit(b"", b"fatal: cannot open '.git/HEAD': Permission denied\n", 128),
         "exit128_badobj" => out_exit(b"", b"fatal: bad object HEAD\n", 128),
+        "exit128_lock" => out_exit(
+            b"",
+            b"fatal: Unable to create '/work/repo/.git/index.lock': File exists.\n\nAnother git process seems to be running in this repository, e.g.\nan editor opened by 'git commit'. Please make sure all processes\nare terminated then try again.\n",
+            128,
+        ),
+        "exit128_shallow" => out_exit(b"", b"fatal: shallow file has changed since we read it\n", 128),
+        "exit128_auth" => out_exit(b"", b"fatal: Authentication failed for 'https://example.invalid/repo.git/'\n", 128),
+        "exit128_network" => out_exit(b"", b"ssh: Could not resolve hostname example.invalid: Name or service not known\nfatal: Could not read from remote repository.\n", 128),
+        "exit128_dubious" => out_exit(
+            b"",
+            b"fatal: detected dubious ownership in repository at '/work/repo'\nTo add an exception for this directory, call:\n\n\tgit config --global --add safe.directory /work/repo\n",
+            128,
+        ),
+        "exit129_usage" => out_exit(b"", b"usage: git rev-list [<options>] <commit>... [--] [<path>...]\n", 129),
+        "exit128_unknown_rev" => out_exit(b"", b"fatal: bad revision 'v1.0.0..HEAD'\n", 128),
+        "exit1_stdout_and_stderr" => out_exit(b"partial output before the failure\n", b"error: something went wrong\n", 1),
         "exit1_empty_stderr" => out_exit(b"", b"", 1),
         "exit255_nonutf8_stderr" => out_exit(b"", b"fatal: \xff\xfe\x80 broken \xc3\x28\n", 255),
         "exit128_big_stderr" => {
